@@ -1,6 +1,536 @@
-"""Rules on the AST builder (placeholder, filled below)."""
-from ..common import Report
+"""Rules on the AST builder's normal form (C03, C04.items, C08.ast, C11 builder side, C12.rect, C13.ast, C17 shapes)."""
+from __future__ import annotations
+
+from ..absint import new_interp, Interp, HList, HDict, HInst, NONE, const, is_const, fmt, fmt_seg, mk_not
+from ..berp import grammar
+from ..common import AnalysisError, Report
+from ..facts import facts
+from .. import nf
+
+BFILE = "python/gherkin/ast_builder.py"
+BQ = "gherkin.ast_builder.AstBuilder"
+IGNORABLE = {"Empty", "Language", "Comment", "EOF"}
+ENVELOPE_KEY = {"Background": "background", "ScenarioDefinition": "scenario", "Rule": "rule"}
+# repeated children of which only the first is an element of its own (the rest are structure)
+FIRST_ONLY = {("DocString", "DocStringSeparator"): "opening delimiter = first separator token; the closing one carries no data"}
 
 
-def rule_tags_ast(rep: Report, rid: str) -> None:
-    pass
+def canon(t, memo=None):
+    """Rewrite AstNode accessor expansions into ('items', n, k) / ('single', n, k, default) / ('first', n, k)."""
+    if memo is None:
+        memo = {}
+    if not isinstance(t, tuple) or not t:
+        return t
+    if t in memo:
+        return memo[t]
+    new = tuple(canon(x, memo) if isinstance(x, tuple) else x for x in t)
+    r = new
+    if new[0] == "item" and isinstance(new[1], tuple) and new[1][0] == "attr" and new[1][2] == "_sub_items":
+        r = ("items", new[1][1], new[2][1] if is_const(new[2]) else new[2])
+    elif new[0] == "cond" and isinstance(new[1], tuple) and new[1][0] == "items" \
+            and new[2] == ("item", new[1], const(0)):
+        r = ("single", new[1][1], new[1][2], new[3])
+    elif new[0] == "cond" and isinstance(new[1], tuple) and new[1][0] == "items" and new[2] == ("first", new[1][1], new[1][2]):
+        r = ("single", new[1][1], new[1][2], new[3])
+    elif new[0] == "item" and isinstance(new[1], tuple) and new[1][0] == "items" and is_const(new[2], 0):
+        r = ("first", new[1][1], new[1][2])
+    memo[t] = r
+    return r
+
+
+def single(n, k, d=NONE):
+    return ("single", n, k, d)
+
+
+def items(n, k):
+    return ("items", n, k)
+
+
+class Branch:
+    def __init__(self, rule, tree, line):
+        self.rule = rule
+        self.tree = tree
+        self.line = line
+        self.returns = []       # (value term, line, guards)
+
+
+class BuilderNF:
+    def __init__(self) -> None:
+        self.I = I = new_interp()
+        self.fi = I.facts.func(f"{BQ}.transform_node")
+        p = self.fi.params()
+        self.selft = ("param", p[0])
+        self.node = ("param", p[1])
+        self.tree, self.rv, _ = I.run(f"{BQ}.transform_node")
+        self.memo: dict = {}
+        self.branches: dict[str, Branch] = {}
+        self.default_returns_node = False
+        self._split()
+
+    def c(self, t):
+        return canon(t, self.memo)
+
+    def _split(self) -> None:
+        rt = ("attr", self.node, "rule_type")
+        cur = [n for n in self.tree if n[0] != "alloc"]
+        while cur:
+            ifs = [n for n in cur if n[0] == "if"]
+            if len(ifs) != 1:
+                break
+            n = ifs[0]
+            c = n[1]
+            if c[0] == "cmp" and c[1] == "Eq" and c[2] == rt and is_const(c[3]):
+                b = Branch(c[3][1], n[2], n[4])
+                self.branches[b.rule] = b
+                cur = n[3]
+                continue
+            break
+        # what remains is the default branch
+        rets = [n for n in cur if n[0] == "return"]
+        self.default_returns_node = bool(rets) and rets[-1][1] == self.node
+        for b in self.branches.values():
+            for n, ctx in nf.iter_nodes(b.tree):
+                if n[0] == "return" and not any(x[0] == "call" for x in ctx):
+                    b.returns.append((n[1], n[2], nf.guards_in_ctx(ctx)))
+
+    # -- deep term collection ---------------------------------------------------------------
+    def deep_terms(self, t, seen=None):
+        """All terms reachable from t through heap objects (final contents)."""
+        if seen is None:
+            seen = set()
+        out = []
+        stack = [t]
+        I = self.I
+        while stack:
+            x = stack.pop()
+            if not isinstance(x, tuple) or not x:
+                continue
+            out.append(x)
+            if x[0] == "ref":
+                if x in seen:
+                    continue
+                seen.add(x)
+                o = I.obj(x)
+                if isinstance(o, HList):
+                    def segs_terms(segs):
+                        for s in segs:
+                            if s[0] in ("e", "s"):
+                                stack.append(s[1])
+                            elif s[0] == "loop":
+                                it = I.loops.get(s[1], {}).get("iter")
+                                if it is not None:
+                                    stack.append(it)
+                                segs_terms(s[2])
+                            elif s[0] == "if":
+                                stack.append(s[1])
+                                segs_terms(s[2])
+                                segs_terms(s[3])
+                            elif s[0] == "op":
+                                for a in s[2]:
+                                    stack.append(a)
+                    segs_terms(nf.list_content(I, x, self.tree))
+                elif isinstance(o, HDict):
+                    for k, v, g in nf.dict_content(I, x, self.tree):
+                        stack.append(v)
+                        if isinstance(k, tuple):
+                            stack.append(k)
+            else:
+                for y in x:
+                    if isinstance(y, tuple):
+                        stack.append(y)
+        return out
+
+    def branch_terms(self, b: Branch):
+        """Terms evaluated in a branch: conditions, loop iterables, mutation arguments, returned values (deep)."""
+        I = self.I
+        roots = []
+        for n, ctx in nf.iter_nodes(b.tree):
+            k = n[0]
+            if k == "if":
+                roots.append(n[1])
+            elif k == "loop":
+                info = I.loops.get(n[1], {})
+                if "iter" in info:
+                    roots.append(info["iter"])
+                if "test" in info:
+                    roots.append(info["test"])
+            elif k == "mutate":
+                roots.extend(n[3])
+                roots.append(n[1])
+            elif k in ("return", "raise", "yield"):
+                roots.append(n[1])
+            elif k in ("setitem",):
+                roots.extend([n[2], n[3]])
+        out = []
+        seen = set()
+        for r in roots:
+            out.extend(self.deep_terms(r, seen))
+        return out
+
+    def reads(self, b: Branch, terms=None):
+        """{(owner term, kind): set of read modes} with owner canonical."""
+        out: dict = {}
+        for t in (terms if terms is not None else self.branch_terms(b)):
+            ct = self.c(t)
+            for s in nf.subterms(ct):
+                if s[0] in ("items", "single", "first"):
+                    out.setdefault((s[1], s[2]), set()).add(s[0])
+        return out
+
+
+_BNF = None
+
+
+def bnf() -> BuilderNF:
+    global _BNF
+    if _BNF is None:
+        _BNF = BuilderNF()
+    return _BNF
+
+
+def _kw(b: BuilderNF, line=None):
+    return dict(file=BFILE, line=line, function=b.fi.qualname)
+
+
+def _owner_rule(b: BuilderNF, owner, prule):
+    """Grammar rule whose AstNode the canonical term ``owner`` denotes inside branch ``prule``."""
+    if owner == b.node:
+        return prule
+    if owner[0] == "single" and owner[3] == NONE:
+        parent = _owner_rule(b, owner[1], prule)
+        if parent is not None:
+            return owner[2]
+    return None
+
+
+def rule_rw(rep: Report, rid="C03.rw", rid_flow="C03.flow") -> None:
+    """Reader/writer agreement: what the parser collects into each AST rule's node (from the grammar) is what the
+    builder branch consuming that node reads, with the right multiplicity, and it reaches the returned value."""
+    b = bnf()
+    g = grammar()
+    rep.used_file(BFILE)
+    rep.used_file("gherkin.berp")
+    rep.used_function(b.fi.qualname)
+    ast_rules = [r for r in g.order if g.rules[r].ast]
+    passthrough = [r for r in ast_rules if r not in b.branches]
+    rep.floor("transform_node branches", len(b.branches), 11)
+    rep.ob(rid, "rules without a transformation are passed through as nodes", b.default_returns_node, **_kw(b, b.fi.node.lineno),
+           expected="else: return node", found="default branch returns the node" if b.default_returns_node else "default branch does not return the node")
+    for r in b.branches:
+        rep.ob(rid, f"transform branch '{r}' names a grammar rule that builds an AST node", r in ast_rules, **_kw(b, b.branches[r].line),
+               expected="rule with '!' in gherkin.berp", found=r)
+    # which branch consumes a pass-through rule: the parent rule in the grammar
+    parent_of: dict[str, list[str]] = {}
+    for r in ast_rules:
+        for k in g.children(r):
+            if k in passthrough:
+                parent_of.setdefault(k, []).append(r)
+    for p in ast_rules:
+        if p not in b.branches:
+            continue
+        br = b.branches[p]
+        all_terms = b.branch_terms(br)
+        reads = b.reads(br, all_terms)
+        ret_terms = []
+        seen = set()
+        for v, line, gs in br.returns:
+            ret_terms.extend(b.deep_terms(v, seen))
+        ret_reads = b.reads(br, ret_terms)
+        owners = {b.node: p}
+        # rules whose nodes are consumed in this branch: p itself plus pass-through children (recursively)
+        todo = [(b.node, p)]
+        consumed = []
+        while todo:
+            owner, r = todo.pop()
+            consumed.append((owner, r))
+            for k, m in g.children(r).items():
+                if k in passthrough:
+                    todo.append((single(owner, k), k))
+        for owner, r in consumed:
+            for k, m in g.children(r).items():
+                if k in IGNORABLE:
+                    continue
+                modes = reads.get((owner, k), set())
+                what = f"{p}: child #{k}" if k[0].isupper() and k in g.tokens + ["Other"] else f"{p}: child {k}"
+                via = "" if r == p else f" (via pass-through {r})"
+                rep.ob(rid, f"{what}{via} (multiplicity {m}) is read by the branch", bool(modes), **_kw(b, br.line),
+                       expected=f"get_{'items/get_tokens' if m in '*+' else 'single/get_token'}('{k}')", found=sorted(modes) or "never read")
+                if not modes:
+                    continue
+                if m in "*+":
+                    ok = "items" in modes or (r, k) in FIRST_ONLY
+                    rep.ob(rid, f"{what}{via} may repeat and is read as a list", ok, **_kw(b, br.line),
+                           expected="get_items/get_tokens (all occurrences)", found=sorted(modes),
+                           note=FIRST_ONLY.get((r, k)))
+                rr = ret_reads.get((owner, k), set())
+                if (r, k) in FIRST_ONLY or k in passthrough:
+                    flow_ok = bool(rr) or k in passthrough
+                else:
+                    flow_ok = bool(rr) and (m not in "*+" or "items" in rr)
+                rep.ob(rid_flow, f"{what}{via} reaches the value the branch returns", flow_ok, **_kw(b, br.line),
+                       expected="child flows into the returned node", found=sorted(rr) or "read but not part of the result")
+        # reads of kinds the parser never puts there
+        for (owner, k), modes in sorted(reads.items(), key=str):
+            r = _owner_rule(b, owner, p)
+            if r is None:
+                continue
+            if r not in g.rules:
+                continue
+            ch = g.children(r)
+            rep.ob(rid, f"{p}: read of '{k}' from a {r} node names something the parser collects there", k in ch, **_kw(b, br.line),
+                   expected=sorted(ch), found=k)
+
+
+def _dict_of(b: BuilderNF, t):
+    t = nf.strip_dropnone(t)
+    return nf.resolve_ref_dict(b.I, t, b.tree)
+
+
+def _main_return(b: BuilderNF, br: Branch):
+    """The returned dict of a branch (the non-None return)."""
+    ds = [(v, line, gs) for v, line, gs in br.returns if _dict_of(b, v) is not None]
+    return ds[-1] if ds else None
+
+
+def rule_fields(rep: Report, rid="C03.fields") -> None:
+    b = bnf()
+    I = b.I
+    node = b.node
+    line_attr = lambda L, a: ("attr", L, a)
+
+    def expect_titled(p, owner_line_node, line_kind, extra):
+        L = single(owner_line_node, line_kind)
+        e = {"location": ("attr", L, "location"), "keyword": ("attr", L, "matched_keyword"), "name": ("attr", L, "matched_text")}
+        e.update(extra)
+        return e
+
+    scen = single(node, "Scenario")
+    exs = single(node, "Examples")
+    fh = single(node, "FeatureHeader")
+    rh = single(node, "RuleHeader")
+    sl = single(node, "StepLine")
+    spec = {
+        "Background": expect_titled("Background", node, "BackgroundLine",
+                                    {"description": single(node, "Description", const("")), "steps": items(node, "Step")}),
+        "ScenarioDefinition": expect_titled("ScenarioDefinition", scen, "ScenarioLine",
+                                            {"description": single(scen, "Description", const("")), "steps": items(scen, "Step"),
+                                             "examples": items(scen, "ExamplesDefinition")}),
+        "ExamplesDefinition": expect_titled("ExamplesDefinition", exs, "ExamplesLine",
+                                            {"description": single(exs, "Description", const(""))}),
+        "Rule": expect_titled("Rule", rh, "RuleLine", {"description": single(rh, "Description", const(""))}),
+        "Feature": expect_titled("Feature", fh, "FeatureLine",
+                                 {"description": single(fh, "Description", const("")),
+                                  "language": ("attr", single(fh, "FeatureLine"), "matched_gherkin_dialect")}),
+        "Step": {"location": ("attr", sl, "location"), "keyword": ("attr", sl, "matched_keyword"),
+                 "keywordType": ("attr", sl, "matched_keyword_type"), "text": ("attr", sl, "matched_text")},
+    }
+    for p, exp in spec.items():
+        br = b.branches.get(p)
+        if br is None:
+            rep.ob(rid, f"{p}: a transformation branch exists", False, **_kw(b), expected="branch", found="missing")
+            continue
+        mr = _main_return(b, br)
+        if mr is None:
+            rep.ob(rid, f"{p}: the branch returns a node dictionary", False, **_kw(b, br.line), expected="dict", found=[fmt(v, I) for v, _, _ in br.returns])
+            continue
+        d = _dict_of(b, mr[0])
+        for k, want in exp.items():
+            got = b.c(nf.strip_dropnone(d[k][0])) if k in d else None
+            rep.ob(rid, f"{p}.{k} comes from " + fmt(want, I), got == want, **_kw(b, mr[1]),
+                   expected=fmt(want, I), found=fmt(got, I) if got is not None else "field missing")
+    # comments: collected by build() from Comment tokens, text = matched_text, location = token location
+    I2 = new_interp()
+    tree, rv, _ = I2.run(f"{BQ}.build")
+    fi = I2.facts.func(f"{BQ}.build")
+    rep.used_function(fi.qualname)
+    tok = ("param", fi.params()[1])
+    selft = ("param", fi.params()[0])
+    is_comment = ("cmp", "Eq", ("attr", tok, "matched_type"), const("Comment"))
+    found_comment = False
+    found_add = False
+    for n, ctx in nf.iter_nodes(tree):
+        gs = nf.guards_in_ctx(ctx)
+        if n[0] == "mutate" and n[1] == ("attr", selft, "comments") and n[2] == "append":
+            d = nf.resolve_ref_dict(I2, n[3][0], tree)
+            ok = gs == [(is_comment, True)] and d is not None and set(d) == {"location", "text"} \
+                and d["text"][0] == ("attr", tok, "matched_text") and d["location"][0] == ("attr", tok, "location")
+            found_comment = True
+            rep.ob(rid, "a Comment token becomes one comment {location: token location, text: token text}, whatever the position", ok,
+                   file=BFILE, line=n[4], function=fi.qualname, expected="if token.matched_type == 'Comment': comments.append({location, text})",
+                   found=fmt(n[3][0], I2) + f" under {[(fmt(a, I2), p) for a, p in gs]}")
+        if n[0] == "mutate" and n[2] == "append" and n[1] != ("attr", selft, "comments"):
+            tgt = canon(n[1])
+            found_add = True
+            ok = gs == [(is_comment, False)] and n[3] == (tok,) and tgt[0] == "items" and tgt[2] == ("attr", tok, "matched_type") \
+                and tgt[1] == ("item", ("attr", selft, "stack"), const(-1))
+            rep.ob(rid, "every other token is added to the open rule's node under its own token kind", ok,
+                   file=BFILE, line=n[4], function=fi.qualname, expected="current_node.add(token.matched_type, token)",
+                   found=f"{fmt(tgt, I2)}.append({fmt(n[3][0], I2)}) under {[(fmt(a, I2), p) for a, p in gs]}")
+    rep.ob(rid, "build() handles comments and other tokens", found_comment and found_add, file=BFILE, line=fi.node.lineno,
+           function=fi.qualname, expected="both paths", found={"comment": found_comment, "add": found_add})
+
+
+def rule_order(rep: Report, rid="C03.order") -> None:
+    """children lists: optional background, then scenarios, then rules - in grammar order, each in collection order."""
+    b = bnf()
+    I = b.I
+    g = grammar()
+    for p in ("Feature", "Rule"):
+        br = b.branches.get(p)
+        mr = _main_return(b, br) if br else None
+        if mr is None:
+            rep.ob(rid, f"{p}: returns a node with children", False, **_kw(b), expected="dict", found="missing")
+            continue
+        d = _dict_of(b, mr[0])
+        ch = nf.strip_dropnone(d["children"][0]) if "children" in d else None
+        if ch is None or ch[0] != "ref":
+            rep.ob(rid, f"{p}.children is a list built by the branch", False, **_kw(b, mr[1]), expected="list", found=fmt(ch, I) if ch else "missing")
+            continue
+        segs = nf.flatten_segs(I, nf.list_content(I, ch, b.tree), b.tree)
+        found = []
+        for s in segs:
+            if s[0] == "if":
+                inner = s[2] if s[2] else s[3]
+                if len(inner) == 1 and inner[0][0] == "e" and not (s[2] and s[3]):
+                    dd = nf.resolve_ref_dict(I, inner[0][1], b.tree)
+                    cc = b.c(s[1])
+                    if dd and len(dd) == 1:
+                        k = next(iter(dd))
+                        v = b.c(dd[k][0])
+                        if v == cc and v[0] == "single" and v[1] == b.node:
+                            found.append((k, v[2], "?"))
+                            continue
+                found.append(("irregular", fmt_seg(s, I) if s[0] != "if" else "if " + fmt(s[1], I), ""))
+            elif s[0] == "loop" and len(s[2]) == 1 and s[2][0][0] == "e":
+                info = I.loops[s[1]]
+                it = b.c(info.get("iter"))
+                dd = nf.resolve_ref_dict(I, s[2][0][1], b.tree)
+                if dd and len(dd) == 1 and it[0] == "items" and it[1] == b.node and not info.get("conds"):
+                    k = next(iter(dd))
+                    if dd[k][0] == ("elem", s[1]):
+                        found.append((k, it[2], "*"))
+                        continue
+                found.append(("irregular", fmt_seg(s, I), ""))
+            else:
+                found.append(("irregular", fmt_seg(s, I), ""))
+        want = []
+        for k, m in g.children(p).items():
+            if k in ENVELOPE_KEY:
+                want.append((ENVELOPE_KEY[k], k, "?" if m == "?" else "*"))
+        rep.eq(rid, f"{p}.children = " + ", ".join(f"{k}{m}" for _, k, m in want) + " in grammar order, each wrapped in its envelope",
+               want, found, **_kw(b, mr[1]))
+    # list-valued fields keep collection order: no sorting / reversing / set conversion anywhere in the builder
+    bad = []
+    for br in b.branches.values():
+        for t in b.branch_terms(br):
+            if t[0] == "call" and t[1] in ("sorted", "reversed", "set", "frozenset", ".sort", ".reverse"):
+                bad.append((br.rule, fmt(t, I)))
+        for n, ctx in nf.iter_nodes(br.tree):
+            if n[0] == "mutate" and n[2] in ("sort", "reverse", "insert"):
+                bad.append((br.rule, f"{n[2]} at line {n[4]}"))
+    rep.ob(rid, "no branch reorders or de-duplicates what it collected", not bad, **_kw(b), expected="no sorted/reversed/set/sort/reverse/insert", found=bad)
+
+
+def rule_desc(rep: Report, rid="C03.desc") -> None:
+    """description = '\\n'.join(text of the Other tokens in order) after dropping a trailing run of *blank* lines."""
+    b = bnf()
+    I = b.I
+    br = b.branches.get("Description")
+    if br is None:
+        rep.ob(rid, "a Description branch exists", False, **_kw(b), expected="branch", found="missing")
+        return
+    rets = [r for r in br.returns]
+    ok_join = False
+    found = [fmt(v, I) for v, _, _ in rets]
+    src_list = None
+    for v, line, gs in rets:
+        if v[0] == "call" and v[1] == ".join" and is_const(v[2][0], "\n"):
+            lst = v[2][1]
+            sl = None
+            if lst[0] == "ref":
+                segs = nf.list_content(I, lst, b.tree)
+                if len(segs) == 1 and segs[0][0] == "loop" and len(segs[0][2]) == 1 and segs[0][2][0][0] == "e":
+                    lid = segs[0][1]
+                    info = I.loops[lid]
+                    if segs[0][2][0][1] == ("attr", ("elem", lid), "matched_text") and not info.get("conds"):
+                        src_list = info.get("iter")
+                        ok_join = True
+    rep.ob(rid, "the description is the line texts joined by line feeds, in order, unfiltered", ok_join, **_kw(b, br.line),
+           expected="'\\n'.join(token.matched_text for token in <tokens>)", found=found)
+    if not ok_join:
+        return
+    # the token list: a fresh copy of the Other tokens from which only a trailing run is popped
+    o = I.obj(src_list)
+    base_ok = isinstance(o, HList) and [b.c(s[1]) if s[0] == "s" else None for s in o.segs] == [items(b.node, "Other")]
+    rep.ob(rid, "the lines are the node's #Other tokens (comments were diverted by build)", base_ok, **_kw(b, br.line),
+           expected="list(node.get_tokens('Other'))", found=fmt(src_list, I))
+    muts = [(n, ctx) for n, ctx in nf.iter_nodes(br.tree) if n[0] == "mutate" and n[1] == src_list]
+    loops = [n for n, ctx in nf.iter_nodes(br.tree) if n[0] == "loop" and I.loops[n[1]].get("kind") == "while"]
+    trim_ok = False
+    pred_kind = None
+    detail = None
+    if len(muts) == 1 and muts[0][0][2] == "pop" and muts[0][0][3] == () and len(loops) == 1:
+        lid = loops[0][1]
+        in_loop = nf.loops_in_ctx(muts[0][1]) == [lid] and not nf.guards_in_ctx(muts[0][1])
+        test = I.loops[lid].get("test")
+        detail = fmt(test, I)
+        last_text = ("attr", ("item", src_list, const(-1)), "matched_text")
+        # while tokens and <blank(tokens[-1].matched_text)>
+        if in_loop and test is not None and test[0] == "bool" and test[1] == "and" and len(test[2]) == 2 and test[2][0] == src_list:
+            p = test[2][1]
+            blank_forms = [
+                mk_not(("call", ".strip", (last_text,), ())),
+                ("call", ".isspace", (last_text,), ()),
+                ("cmp", "Eq", ("call", ".strip", (last_text,), ()), const("")),
+            ]
+            if p in blank_forms:
+                pred_kind = "blank"
+                trim_ok = True
+            elif p == mk_not(last_text) or p == ("cmp", "Eq", last_text, const("")):
+                pred_kind = "empty"
+            elif p[0] == "bool" and p[1] == "or" and set(p[2]) == {mk_not(last_text), ("call", ".isspace", (last_text,), ())}:
+                pred_kind = "blank"
+                trim_ok = True
+    rep.ob(rid, "only trailing blank (whitespace-only) lines are dropped, from the end, while there are lines", trim_ok, **_kw(b, br.line),
+           expected="while tokens and not tokens[-1].matched_text.strip(): tokens.pop()",
+           found=(f"trailing trim tests {pred_kind or 'an unrecognised predicate'}: {detail}" if detail else f"{len(muts)} mutation(s), {len(loops)} while loop(s)"),
+           note="whitespace-only lines are free text in description states, so they reach this trim")
+
+
+def rule_tags_ast(rep: Report, rid="C08.ast") -> None:
+    """Tags of an element = items of the TagLine tokens of its own Tags child, token then item order, name = item text."""
+    b = bnf()
+    I = b.I
+    owners = {"ScenarioDefinition": b.node, "ExamplesDefinition": b.node, "Rule": single(b.node, "RuleHeader"),
+              "Feature": single(b.node, "FeatureHeader")}
+    for p, owner in owners.items():
+        br = b.branches.get(p)
+        mr = _main_return(b, br) if br else None
+        d = _dict_of(b, mr[0]) if mr else None
+        tv = nf.strip_dropnone(d["tags"][0]) if d and "tags" in d else None
+        if tv is None or tv[0] != "ref":
+            rep.ob(rid, f"{p}.tags is a list built from the element's tag lines", False, **_kw(b, br.line if br else None),
+                   expected="list", found=fmt(tv, I) if tv else "missing")
+            continue
+        segs = nf.flatten_segs(I, nf.list_content(I, tv, b.tree), b.tree)
+        # tolerate the 'no Tags child' early return: the list may be returned empty under that guard
+        ok = False
+        found = [fmt_seg(s, I) for s in segs]
+        if len(segs) == 1 and segs[0][0] == "if" and not segs[0][3] and b.c(segs[0][1]) == single(owner, "Tags"):
+            segs = segs[0][2]       # 'no Tags child -> no tags' guard
+        if len(segs) == 1 and segs[0][0] == "loop":
+            l1 = segs[0][1]
+            it1 = b.c(I.loops[l1].get("iter"))
+            inner = segs[0][2]
+            if it1 == items(single(owner, "Tags"), "TagLine") and len(inner) == 1 and inner[0][0] == "loop" and not I.loops[l1].get("conds"):
+                l2 = inner[0][1]
+                it2 = I.loops[l2].get("iter")
+                e = inner[0][2]
+                if it2 == ("attr", ("elem", l1), "matched_items") and len(e) == 1 and e[0][0] == "e" and not I.loops[l2].get("conds"):
+                    td = nf.resolve_ref_dict(I, e[0][1], b.tree)
+                    if td and set(td) == {"id", "location", "name"}:
+                        ok = td["name"][0] == ("item", ("elem", l2), const("text")) and td["id"][0][0] == "drawn"
+                        found = {k: fmt(v[0], I) for k, v in td.items()}
+        rep.ob(rid, f"{p}.tags are the items of the TagLine tokens of its own Tags child, token then item order, name = item text", ok,
+               **_kw(b, mr[1]), expected=f"for token in {fmt(items(single(owner, 'Tags'), 'TagLine'), I)}: for item in token.matched_items: {{id, location, name: item.text}}",
+               found=found)
